@@ -2,6 +2,12 @@
 
 package actionlint
 
+import (
+	"io"
+
+	"gopkg.in/yaml.v3"
+)
+
 // C01 H1: lexer + parser + semantic checker on arbitrary bytes: no panic, no
 // hang, (tree, nil) xor (nil, err), error offset within the input.
 func HarnessC01Expr(L int, sema bool) {
@@ -23,5 +29,185 @@ func HarnessC01Expr(L int, sema bool) {
 		for _, e := range errs {
 			verifCheck(0 <= e.Offset && e.Offset <= L+2, "sema-error-offset-in-input")
 		}
+	}
+}
+
+// ---- H3: scalar / section decoders on one arbitrary YAML node ----
+
+var verifTagLens = []int{5, 6, 7, 0, 8, 11}
+
+// verifSymNode builds a node of symbolic kind (one of the five kinds yaml.v3
+// produces inside a document), symbolic tag text (every tag of the lengths of
+// the standard tags), symbolic style bits and symbolic scalar text.
+func verifSymNode(prefix string, vlen int, depth int) *yaml.Node {
+	k := verifSymInt(prefix + "kind")
+	verifAssume(verifOr(verifOr(k == int(yaml.SequenceNode), k == int(yaml.MappingNode)), verifOr(k == int(yaml.ScalarNode), verifOr(k == int(yaml.AliasNode), k == int(yaml.DocumentNode)))))
+	tl := verifTagLens[verifChoose(prefix+"taglen", len(verifTagLens))]
+	n := &yaml.Node{Kind: yaml.Kind(k), Tag: verifSymString(prefix+"tag", tl), Value: verifSymString(prefix+"val", vlen),
+		Style: yaml.Style(verifSymByte(prefix + "style")), Line: 3, Column: 5}
+	if depth > 0 {
+		nc := verifChoose(prefix+"children", 3)
+		if nc > 0 {
+			verifAssumeNote(verifAnd(k != int(yaml.ScalarNode), k != int(yaml.AliasNode)), "scalar and alias nodes have no children (yaml.v3 invariant)")
+		}
+		if nc == 1 {
+			// yaml.v3 only builds mapping nodes with key/value pairs
+			verifAssumeNote(k != int(yaml.MappingNode), "mapping nodes have an even number of children (yaml.v3 invariant)")
+		}
+		for c := 0; c < nc; c++ {
+			n.Content = append(n.Content, verifSymNode(prefix+"c"+string(rune('0'+c)), vlen, depth-1))
+		}
+	}
+	return n
+}
+
+// HarnessC01Decoders: every scalar/section decoder of the workflow parser on
+// one arbitrary node: no panic, and a nil result only together with a diagnostic
+// where the decoder promises one.
+func HarnessC01Decoders(which int, vlen int) {
+	n := verifSymNode("n", vlen, 1)
+	p := &parser{}
+	pos := &Pos{1, 1}
+	switch which {
+	case 0:
+		p.parseBool(n)
+	case 1:
+		p.parseInt(n)
+	case 2:
+		p.parseFloat(n)
+	case 3:
+		p.parseTimeoutMinutes(n)
+	case 4:
+		p.parseMaxParallel(n)
+	case 5:
+		p.parseString(n, false)
+	case 6:
+		p.parseExpression(n, "x")
+		p.mayParseExpression(n)
+	case 7:
+		p.parseStringSequence("s", n, false, false)
+		p.parseStringOrStringSequence("s", n, true, true)
+	case 8:
+		p.parseMapping("m", n, false, false)
+		p.parseMapping("m", n, true, true)
+	case 9:
+		p.parseRawYAMLValue(n)
+	case 10:
+		p.parseEnv(n)
+		p.parsePermissions(pos, n)
+	case 11:
+		p.parseConcurrency(pos, n)
+		p.parseEnvironment(pos, n)
+	case 12:
+		p.parseRunsOn(n)
+	case 13:
+		p.parseEvents(pos, n)
+	case 14:
+		p.parseMatrix(pos, n)
+	case 15:
+		p.parseContainer("container", pos, n)
+		p.parseServices(n)
+	case 16:
+		p.parseStep(n)
+	case 17:
+		p.parseJob(&String{"j", false, pos}, n)
+	case 18:
+		p.parse(n)
+	}
+	verifReach("returned")
+	for _, e := range p.errors {
+		verifCheck(e.Line >= 1 && e.Column >= 1, "diagnostic-position-positive")
+	}
+}
+
+const verifNumDecoders = 19
+
+// ---- H4: one node of the full skeleton replaced by an arbitrary node ----
+
+func verifAllNodes(n *yaml.Node, out *[]*yaml.Node) {
+	*out = append(*out, n)
+	for _, c := range n.Content {
+		verifAllNodes(c, out)
+	}
+}
+
+// HarnessC01Sweep: at every node position of the full skeleton (keys, values,
+// sequence elements, sections) a node of symbolic kind/tag with representative
+// text replaces the original; parser and (with rules) every in-process rule
+// must not panic.
+func HarnessC01Sweep(rules bool, deep bool) {
+	doc, _ := verifFullSkeletonSites()
+	var nodes []*yaml.Node
+	verifAllNodes(doc.Content[0], &nodes)
+	target := nodes[verifChoose("node", len(nodes))]
+	vals := []string{"x", "nan"}
+	if deep {
+		vals = []string{"x", "nan", "", "${{ x }}", "1", "true", "${{ ]] }}"}
+	}
+	k := verifSymInt("kind")
+	verifAssume(verifOr(verifOr(k == int(yaml.SequenceNode), k == int(yaml.MappingNode)), verifOr(k == int(yaml.ScalarNode), k == int(yaml.AliasNode))))
+	ntl := 4
+	if deep {
+		ntl = len(verifTagLens)
+	}
+	tl := verifTagLens[verifChoose("taglen", ntl)]
+	target.Kind = yaml.Kind(k)
+	target.Tag = verifSymString("tag", tl)
+	target.Value = vals[verifChoose("value", len(vals))]
+	nch := 2
+	if deep {
+		nch = 4
+	}
+	switch verifChoose("children", nch) {
+	case 0:
+		target.Content = nil
+	case 1:
+		// keep the original children
+		if len(target.Content) > 0 {
+			verifAssumeNote(verifAnd(k != int(yaml.ScalarNode), k != int(yaml.AliasNode)), "scalar and alias nodes have no children (yaml.v3 invariant)")
+		}
+		if len(target.Content)%2 == 1 {
+			verifAssumeNote(k != int(yaml.MappingNode), "mapping nodes have an even number of children (yaml.v3 invariant)")
+		}
+	case 2:
+		verifAssumeNote(k == int(yaml.SequenceNode), "one child: a sequence")
+		target.Content = []*yaml.Node{yScalar("a")}
+	case 3:
+		verifAssumeNote(verifOr(k == int(yaml.SequenceNode), k == int(yaml.MappingNode)), "two children: sequence or mapping")
+		target.Content = []*yaml.Node{yScalar("a"), yScalar("${{ x }}")}
+	}
+	verifPlace(doc, 1, 0)
+	w, perrs := verifParseOnly(doc)
+	if rules {
+		verifVisit(w, perrs, verifRules())
+	}
+	verifReach("returned")
+}
+
+// ---- H5: rendering a diagnostic with arbitrary position against arbitrary source ----
+
+func HarnessC01Render(L int) {
+	src := []byte(verifSymString("source", L))
+	e := &Error{Message: "m", Filepath: "f", Line: verifSymInt("line"), Column: verifSymInt("col"), Kind: "k"}
+	f := e.GetTemplateFields(src)
+	verifReach("fields")
+	verifCheck(f.Line == e.Line && f.Column == e.Column, "fields-keep-position")
+	e.PrettyPrint(io.Discard, src)
+	verifReach("printed")
+}
+
+// HarnessC17Smoke (H2): the glob validators on arbitrary bytes: no panic, no
+// hang, columns within the pattern.
+func HarnessC17Smoke(L int, isRef bool) {
+	pat := verifSymString("pat", L)
+	var errs []InvalidGlobPattern
+	if isRef {
+		errs = ValidateRefGlob(pat)
+	} else {
+		errs = ValidatePathGlob(pat)
+	}
+	verifReach("returned")
+	for _, e := range errs {
+		verifCheck(0 <= e.Column && e.Column <= L, "column-in-pattern")
 	}
 }
